@@ -192,6 +192,11 @@ class Evaluator:
                 sub.inline = inl
                 sub.pass_object = getattr(self, "pass_object", False)
                 sub.run_blocks(g.entry, max_steps=500)
+                if getattr(sub, "wraps", None):
+                    if not hasattr(self, "wraps"):
+                        self.wraps = []
+                    self.wraps.extend(sub.wraps)
+                self.trace.extend(sub.trace)
                 r = getattr(sub, "ret", None)
                 if r is None or isinstance(r, tuple):
                     raise Unknown("inlined %s: %s" % (nm, r))
@@ -241,7 +246,12 @@ class Evaluator:
         elif op == ">=": return 1 if a >= b else 0
         else:
             raise Unknown(op)
-        return self.wrap(v, ct)
+        w = self.wrap(v, ct)
+        if w != v and op in ("+", "-", "*", "<<"):
+            if not hasattr(self, "wraps"):
+                self.wraps = []
+            self.wraps.append((op, a, b, ct))
+        return w
 
     # ---- CFG walking -----------------------------------------------------
     def run_blocks(self, start, stop_blocks=(), max_steps=2000, on_call=None):
